@@ -20,6 +20,26 @@ Theorem C01_constants_from_source :
   /\ (forall f, params_tag (PFull f) = Tables.c01_params_tag_full).
 Proof. repeat split; reflexivity. Qed.
 
+(* The predicates the encoders and decoders branch on (the witness flag, the issuance flag bit, the three-way classification of the confidential
+   types and their encoded lengths) are, function by function, the ones TRANSLATED from the source on every run (Gen/SrcPreds.v, rust2coq applied to
+   Value/Asset/Nonce::{is_null, is_explicit, is_confidential, encoded_length}, AssetIssuance::is_null, TxInWitness::is_empty, TxOutWitness::is_empty,
+   TxIn::has_issuance, Transaction::has_witness). A change of meaning of any of them stops Proofs/SrcPreds.v from compiling. *)
+From EV Require Gen.SrcPreds Proofs.SrcPreds.
+Theorem C01_predicates_from_source : forall (t : tx) (i : txin) (iw : inwit) (ow : outwit) (v : cvalue) (a : casset) (n : cnonce),
+  SrcPreds.src_Transaction_has_witness t = has_witness t /\ SrcPreds.src_TxIn_has_issuance i = has_issuance i
+  /\ SrcPreds.src_AssetIssuance_is_null (in_iss i) = issuance_is_null (in_iss i)
+  /\ SrcPreds.src_TxInWitness_is_empty iw = inwit_is_empty iw /\ SrcPreds.src_TxOutWitness_is_empty ow = outwit_is_empty ow
+  /\ SrcPreds.src_Value_encoded_length v = elen (c_value (fun _ => true)) v /\ SrcPreds.src_Asset_encoded_length a = elen (c_asset (fun _ => true)) a
+  /\ SrcPreds.src_Nonce_encoded_length n = elen (c_nonce (fun _ => true)) n
+  /\ [SrcPreds.src_Value_is_null v; SrcPreds.src_Value_is_explicit v; SrcPreds.src_Value_is_confidential v]
+      = match v with VNull => [true; false; false] | VExplicit _ => [false; true; false] | VConf _ => [false; false; true] end
+  /\ [SrcPreds.src_Asset_is_null a; SrcPreds.src_Asset_is_explicit a; SrcPreds.src_Asset_is_confidential a]
+      = match a with ANull => [true; false; false] | AExplicit _ => [false; true; false] | AConf _ => [false; false; true] end
+  /\ [SrcPreds.src_Nonce_is_null n; SrcPreds.src_Nonce_is_explicit n; SrcPreds.src_Nonce_is_confidential n]
+      = match n with NNull => [true; false; false] | NExplicit _ => [false; true; false] | NConf _ => [false; false; true] end.
+Proof. intros. repeat split; auto using SrcPreds.src_has_witness, SrcPreds.src_has_issuance, SrcPreds.src_issuance_is_null, SrcPreds.src_inwit_is_empty,
+  SrcPreds.src_outwit_is_empty, SrcPreds.src_value_len, SrcPreds.src_asset_len, SrcPreds.src_nonce_len, SrcPreds.src_value_kinds, SrcPreds.src_asset_kinds, SrcPreds.src_nonce_kinds. Qed.
+
 Section C01.
 Variable pt_ok : bytes -> bool.
 Variables maxvec cap_txin cap_txout cap_vecu8 cap_tx : N.
